@@ -44,6 +44,28 @@ def check_gen(ctx, lines):
         lhs, rhs = line.split(" = ", 1)
         t = lhs.split(" ")
         kind, fid = t[0], t[1]
+        if kind == "seq":
+            # operation sequence on ONE live function: the state (dump bytes, error positions of the live function and of
+            # load(dump f)) after every operation must be the state before the first
+            states = rhs.split(" | ")
+            ctx.case("seq " + fid, True)
+            ctx.count("seq:len%d" % len(fid))
+            for k, st in enumerate(states[1:], 1):
+                if st != states[0]:
+                    a, b = states[0].split(" "), st.split(" ")
+                    what = []
+                    if a[0] != b[0]:
+                        what.append("string.dump(f) returns other bytes")
+                    if len(a) > 1 and len(b) > 1 and a[1] != b[1]:
+                        what.append("the live function reports other errors/positions")
+                    if len(a) > 2 and len(b) > 2 and a[2] != b[2]:
+                        what.append("load(string.dump(f)) reports other errors/positions")
+                    ctx.violation("history %s" % fid[:k],
+                                  "after the operations %s on one function (D dump, S dump strip=true, F strip=false, N strip=nil, C call, "
+                                  "E failing call, K dump nested closures, L load stripped dump): %s" % (fid[:k], "; ".join(what) or "state differs"),
+                                  "c13 seq %s\nbefore: %s\nafter:  %s\n" % (fid[:k], states[0][:600], st[:600]))
+                    break
+            continue
         if kind == "unit":
             ctx.case("unit " + fid, True)
             ctx.count("refactor:unit-consts<%d" % (1 << len(t).bit_length()))
@@ -176,7 +198,9 @@ def run_mal(ctx, h):
 
 
 def run(ctx):
-    ctx.rule = ("cases = one generated Lua chunk (15 hand-written shapes + seeded random chunks with nested closures capturing "
+    ctx.rule = ("size-parameterised shapes (N = 10/199/200/201/1000 sibling closures, nesting up to the compiler's limit, wide x deep, "
+                "300-700 constants, line tables beyond 16 bits) and all operation sequences of length <= 4 over 8 operations on one live "
+                "function; cases = one generated Lua chunk (15 hand-written shapes + seeded random chunks with nested closures capturing "
                 "locals, constants of every type incl. NaN/-0.0/minint/strings with zeros, varargs, loops, globals, errors with "
                 "line info, 120-statement functions) dumped, exported and compared; each behavioural case = (function, argument "
                 "tuple); each damaged dump = one load() call; non-trivial = the prototype has a nested prototype or constants of "
@@ -184,7 +208,8 @@ def run(ctx):
     ctx.assumptions = [
         "memory/CPU budgets of MarshalConst/UnmarshalConst are not modelled (unlimited runtime)",
         "the loaded function is compared with the original by running both (Go only); the VM itself is not modelled here",
-        "strip=true of string.dump is ignored by golua (TODO in dump.go) and not exercised",
+        "strip=true of string.dump is ignored by golua (TODO in dump.go): it is exercised in the operation sequences, whose "
+        "invariants (plain dump bytes and error positions never change) hold whether or not strip is honoured",
     ]
     msgs = common.regen(ctx)
     for m in msgs:
@@ -192,7 +217,7 @@ def run(ctx):
     common.prove(ctx)
     common.build_oracle()
     h = common.build_go("c13", "cmd/c13")
-    rc, out, err = common.run_harness(h, ["gen", ctx.tier])
+    rc, out, err = common.run_harness(h, ["gen", ctx.tier], env={"GOMEMLIMIT": "6GiB"})
     if rc != 0:
         raise common.BuildError("c13 harness gen failed: " + err[-2000:])
     lines = out.split("\n")[:-1]
@@ -209,6 +234,10 @@ def replay(ctx, path):
         if line.startswith("c13 src "):
             rc, out, err = common.run_harness(h, ["src", line.split()[2]])
             print(out)
+        elif line.startswith("c13 seq "):
+            rc, out, err = common.run_harness(h, ["seq", line.split()[2]])
+            for st in out.strip().split(" = ", 1)[-1].split(" | "):
+                print(st[:300])
         elif line.startswith("c13 malone "):
             p = subprocess.run([h, "malone", line.split()[2]], stdout=subprocess.PIPE, stderr=subprocess.PIPE, text=True,
                                errors="replace", timeout=60, preexec_fn=limit_as)
